@@ -33,28 +33,36 @@ Proof.
   destruct (negb (in_range s idxs)); split; reflexivity.
 Qed.
 
+Lemma nstore_parts (s1 s2 : store (row P)) :
+  nstore s1 = nstore s2 -> cap s1 = cap s2 /\ occ s1 = occ s2 /\ olist s1 = olist s2 /\ rows s1 = rows s2.
+Proof. unfold nstore. intros H. inversion H. auto. Qed.
+
+Lemma stats_update_obs (c : cfg) (a a' : archive) (s1 s2 : store (row P)) sm bi :
+  nstore s1 = nstore s2 -> a_stats a = a_stats a' -> a_best a = a_best a' ->
+  obs (stats_update c a s1 sm bi) = obs (stats_update c a' s2 sm bi).
+Proof.
+  intros Hn Hs Hb. destruct (nstore_parts Hn) as (Hc & Ho & Hl & Hr).
+  unfold stats_update, get_row, len. rewrite Hr, Hl, Hs, Hb.
+  destruct (nth bi (rows s2) None) as [r|].
+  - destruct (st_max (a_stats a')) as [m|].
+    + destruct (Qltb m (r_obj r)); unfold obs, nstore; simpl; rewrite Hc, Ho, Hl, Hr; reflexivity.
+    + unfold obs, nstore; simpl; rewrite Hc, Ho, Hl, Hr; reflexivity.
+  - unfold obs, nstore; simpl; rewrite Hc, Ho, Hl, Hr; reflexivity.
+Qed.
+
 Lemma commit_obs (c : cfg) (a : archive) w :
   obs (commit c a (bump_add (a_store a)) w) = obs (commit c (obs a) (bump_add (a_store (obs a))) w).
 Proof.
   unfold commit.
   change (sum_delta (bump_add (a_store (obs a))) w) with (sum_delta (bump_add (a_store a)) w).
-  change (a_sum (obs a)) with (a_sum a). change (a_stats (obs a)) with (a_stats a).
-  change (a_best (obs a)) with (a_best a).
+  change (a_sum (obs a)) with (a_sum a).
   destruct (add_raw_nstore (bump_add (a_store a)) (map fst w) (map snd w) true) as [H1 _].
+  destruct (add_raw_nstore (bump_add (a_store (obs a))) (map fst w) (map snd w) true) as [H3 _].
   assert (H2 : nstore (fst (add_raw (bump_add (a_store a)) (map fst w) (map snd w) true)) =
                nstore (fst (add_raw (bump_add (a_store (obs a))) (map fst w) (map snd w) true))).
-  { rewrite H1. destruct (add_raw_nstore (bump_add (a_store (obs a))) (map fst w) (map snd w) true) as [H3 _].
-    rewrite H3. reflexivity. }
-  set (s1 := fst (add_raw (bump_add (a_store a)) (map fst w) (map snd w) true)) in *.
-  set (s2 := fst (add_raw (bump_add (a_store (obs a))) (map fst w) (map snd w) true)) in *.
-  assert (Hlen : len s1 = len s2) by (unfold len; change (olist s1) with (olist (nstore s1)); rewrite H2; reflexivity).
-  assert (Hrow : forall i, get_row s1 i = get_row s2 i).
-  { intros i. unfold get_row. change (rows s1) with (rows (nstore s1)). rewrite H2. reflexivity. }
+  { rewrite H1, H3. reflexivity. }
   destruct (best_index w) as [bi|].
-  - unfold stats_update, obs. rewrite (Hrow bi), Hlen.
-    change (a_stats (obs a)) with (a_stats a). change (a_best (obs a)) with (a_best a).
-    destruct (get_row s2 bi) as [r|]; [destruct (st_max (a_stats a)) as [m|]; [destruct (Qltb m (r_obj r))|]|];
-      simpl; rewrite H2; reflexivity.
+  - apply stats_update_obs; auto.
   - unfold obs; simpl. rewrite H2. reflexivity.
 Qed.
 
@@ -100,9 +108,9 @@ Theorem valid_never_rejected (c : cfg) (a : archive) (o : vop) :
   match o with VAdd None _ | VAddSingle None _ | VRetrieve false _ | VClear => True | _ => False end ->
   is_err (snd (vstep c a o)) = false.
 Proof.
-  destruct o as [[[|]|] cs|[[|]|] x|[|] q|]; simpl; try tauto; intros _.
-  - destruct (add c a cs) as [a1 [st vl]]. reflexivity.
-  - destruct (add_single c a x) as [a1 [st vl]]. reflexivity.
+  destruct o as [[[|]|] cs|[[|]|] x|[|] q|]; simpl; try tauto; intros _; try reflexivity.
+  all: try (destruct (add c a cs) as [a1 [st vl]]; reflexivity).
+  all: try (destruct (add_single c a x) as [a1 [st vl]]; reflexivity).
 Qed.
 
 End C11.
